@@ -34,6 +34,9 @@ SerClause(r) ==
   ELSE IF pr.st # "ok" \/ [items |-> pr.items, charts |-> pr.charts] # exp THEN "rules-roundtrip"
   ELSE IF r.re.st # "ok" THEN "reparse-raised"
   ELSE IF ObjOf(r.re) # exp THEN "reparse-differs"
+  ELSE IF "eq" \in DOMAIN r /\ ~r.eq /\ ~(r.fmt = "ssc" /\ o # exp) THEN "reparsed-object-not-equal-by-the-library's-own-comparison"
+  ELSE IF "chre" \in DOMAIN r /\ \E j \in DOMAIN r.chre : ~(MHas(o.charts[j], K_NOTES) /\ MHas(o.charts[j], K_NOTES2))     \* (stand-alone reading ends at either spelling)
+                                                           /\ (r.chre[j].st # "ok" \/ r.chre[j].items # exp.charts[j]) THEN "chart-from-str-differs"
   ELSE IF ~r.stable THEN "second-serialization-differs"
   ELSE IF r.det # "n/a" /\ r.det # Detect("anon", <<>>, ps) THEN "auto-detect-disagrees-with-rule"
   ELSE IF r.t = "ser" /\ r.fmt = "sm" /\ ~(o.items # <<>> /\ o.items[1].k = K_VERSION) /\ r.det # "sm" THEN "auto-detect-sm"
